@@ -93,6 +93,7 @@ class TransformerRun(object):
         self.int_lines = {}  # name -> lineno where int() applied
         self.ret = None
         self.raised = False
+        self.tests = {}  # local name -> the condition it is bound to (`has_unit = len(begin_unit) > 0`)
 
     # unit-valued expressions ---------------------------------------------------------------------------
     def unit_of(self, e):
@@ -126,6 +127,8 @@ class TransformerRun(object):
 
     def test(self, t):
         """evaluate a condition on unit strings -> True/False, or ('div', name) for a divisibility guard, or None"""
+        if isinstance(t, ast.Name) and t.id in self.tests:
+            return self.test(self.tests[t.id])
         if isinstance(t, ast.UnaryOp) and isinstance(t.op, ast.Not):
             v = self.test(t.operand)
             return (not v) if isinstance(v, bool) else None
@@ -288,6 +291,11 @@ class TransformerRun(object):
         if isinstance(st, ast.Assign) and len(st.targets) == 1:
             t = st.targets[0]
             if isinstance(t, ast.Name):
+                if self.unit_of(st.value) is None and (isinstance(st.value, (ast.Compare, ast.BoolOp)) or (isinstance(st.value, ast.UnaryOp) and isinstance(st.value.op, ast.Not))):
+                    if self.test(st.value) is not None or isinstance(st.value, ast.Compare):
+                        # a named condition: evaluated where it is tested
+                        self.tests[t.id] = st.value
+                        return
                 u = self.unit_of(st.value)
                 if u is not None and not isinstance(st.value, ast.Name) or (isinstance(st.value, ast.Name) and st.value.id in self.units):
                     self.units[t.id] = u
